@@ -333,6 +333,8 @@ where
                     .unwrap_or(false)
             });
         }
+        #[cfg(fe2o3_amqp_verif)]
+        crate::verif::preempt("receiver-dispose-all-filtered").await;
         let chunk_inds = consecutive_chunk_indices(&delivery_infos);
 
         let mut prev_ind = 0;
